@@ -9,7 +9,25 @@ NOT_APPLICABLE = {
     "C17": "verdict depends on kernel inotify, fsnotify, a real file system and real time; a stub for that environment would be the thing verified (DESIGN.md §5)",
 }
 
+PARSE = M + "/parse"
+
 CHECKS = {
+    "C15": {
+        "claim": {
+            "text": "bounded model checking of the real parse package: for every 64-bit literal value, in every Go literal style and padding, the integral parsers accept it iff it is in the target type's range and then return exactly that value (solver-quantified over the value; strconv.ParseInt/ParseUint modelled by their documented contract with base and bit size checked)",
+            "note": "strconv.ParseInt/ParseUint on opaque literals are contract stubs (base 0/10 rules, range clamp + ErrRange); floats, complex and durations are outside (strconv/time round-trips are not encoded)",
+            "design_ref": "DESIGN.md §4 C15",
+        },
+        "runs": [
+            {"entry": PARSE + ".HarnessC15IntSlices", "pkgs": LIBS, "must_reach": ["c15-signed-end", "c15-unsigned-end"],
+             "bounds_text": "11 instantiations x 5 literal styles x paddings; value = any int64/uint64"},
+            {"entry": PARSE + ".HarnessC15IntSliceWide", "pkgs": LIBS, "must_reach": ["c15-wide-end"], "bounds_text": "literals of magnitude 2^64; negative into unsigned"},
+            {"entry": PARSE + ".HarnessC15IntSliceTwo", "pkgs": LIBS, "must_reach": ["c15-two-end"], "bounds_text": "two elements, each any int64, styles x paddings"},
+        ],
+        "bounds": {"quick": "1-2 elements; all 64-bit values; 5 literal styles; 4 paddings", "thorough": "same plus string-structure harnesses"},
+        "outside": "floats/complex/durations; literals wider than 2^64 other than the probe; more than 2 elements",
+        "assumptions": ["strconv.ParseInt/ParseUint contract stub on opaque literals (concrete and symbolic-byte strings run the real strconv)", "go/ssa + go/types front end, symgo executor semantics, z3 5.1.0"],
+    },
     "C19": {
         "claim": {
             "text": "bounded model checking of the real caseconversion encoders/decoders: the six inverse laws are discharged by z3 for every byte value of every word list within the bound; Go-identifier decoding is checked for every identifier of <=2 (thorough 3) parts over the full initialisms list with symbolic letters",
